@@ -293,6 +293,18 @@ def run(ctx, with_contradiction=True):
         rep.check(l_first, 'R-C15-1', 'R-C15-1/decoder/unzip', 'L is read before R in every iteration of the loop that fills both (%s)' % why,
                   'the loop that fills L and R reads R first (%s)' % why, ctx.where(dec, abb))
         dec_order = [f for f in dec_order if f not in ('li', 'ri')] + ['li', 'ri']
+        # .. and the loop reads every whole pair that is left: a counted loop whose count is capped (`min`, `take`, `clamp`) stops early on
+        # a long input, and what it leaves behind is accepted or dropped depending on where the leftover test looks
+        pev = [e for e in terms['li'][2] if e.tag == 'ev' and e[2].endswith('::push') and e[4]] if terms['li'].tag == 'mut' else []
+        lps_ = ctx.enclosing_loops(dec, pev[0][4][0][1]) if pev else []
+        it_ = lps_[-1].iter_term if lps_ else None
+        rng_ = getattr(lps_[-1], 'index_range', None) if lps_ else None
+        bound = rng_ if rng_ is not None else it_
+        caps = sorted({x[1].split('::')[-1] for x in walk(bound) if x.tag == 'call' and x[1].split('::')[-1] in ('min', 'clamp')} |
+                      {x[1] for x in walk(bound) if x.tag == 'adapt' and x[1] in ('take', 'take_while', 'step_by')}) if bound is not None else []
+        rep.check(not caps, 'R-C15-1', 'R-C15-1/decoder/all-pairs', 'the loop that reads the (L, R) pairs is not capped: it reads every whole pair that remains',
+                  'the loop that reads the (L, R) pairs is capped by %s (%s): on a longer input the pairs beyond the cap are not read, and the decoded proof is not the byte string' % (
+                      ', '.join(caps), short(bound, 100) if bound is not None else None), ctx.where(dec, abb))
     elif 'li' in terms and 'ri' in terms:
         (ci, bi), (cr, br) = comp(terms['li']), comp(terms['ri'])
         rep.check(ci == ['0'] and cr == ['1'] and bi == br and len(bi) == 1, 'R-C15-1', 'R-C15-1/decoder/unzip', 'L is the first and R the second component of each decoded pair',
